@@ -1,7 +1,8 @@
 (* Extraction of the RLP model for ocaml/rlp/driver.ml.  ExtrOcamlBasic only. *)
-From AQ Require Import Lib.Bytes Lib.ExtractBase Lib.Keccak Rlp.RlpSpec Rlp.Typed Rlp.TypedGen.
+From AQ Require Import Lib.Bytes Lib.ExtractBase Lib.Keccak Rlp.RlpSpec Rlp.Typed Rlp.TypedGen Rlp.StreamModel.
 Require Extraction.
 Require Import ExtrOcamlBasic.
 Extraction "../ocaml/rlp/model.ml" base_anchor keccak256
   encode decode decode_exact split count_values fits encode_uint item_to_uint
-  typed_recode all_wf.
+  typed_recode all_wf
+  new_stream st_op stream_walk s_in.
